@@ -93,6 +93,12 @@ func (k Keeper) UpdatePriceList(ctx sdk.Context, id, scriptID, rate, twaBatch ui
 		twa.PriceValue = append(twa.PriceValue, rate)
 		twa.CurrentIndex = 1
 		twa.DiscardedHeightDiff = -1
+		if twa.CurrentIndex >= twaBatch {
+			// a window of one sample is full with the first sample
+			twa.IsPriceActive = true
+			twa.CurrentIndex = 0
+			twa.Twa = k.CalculateTwa(ctx, twa, twaBatch)
+		}
 		k.SetTwa(ctx, twa)
 	} else if found && rate > 0 {
 		if twa.IsPriceActive {
